@@ -17,12 +17,15 @@ RULE = ("explicit-state BFS to fixpoint: transitions are real DrawSet.add/remove
         "non-trivial when it is a distinct ordered arrangement with >= 2 members")
 BOUNDS = {"quick": "universes of 3, 3, 3, 4 and 5 elements (pairs and their reversals, colliding hashes, string ids), full reachable state space (fixpoint)",
           "thorough": "universes of 3, 3, 4, 5 and 6 elements, full reachable state space (fixpoint)"}
-ASSUMPTIONS = ["elements are hashable tuples, as in rewire(); draw() on an empty set and the exception type "
+ASSUMPTIONS = ["one supplementary deterministic history over 300 elements is replayed in addition (not exhaustive; it only "
+               "reaches list positions beyond 256)",
+               "elements are hashable tuples, as in rewire(); draw() on an empty set and the exception type "
                "of remove(absent) are unspecified by the property and not checked",
                "canonical state = iteration order + repr of every instance attribute (over-fine on purpose)"]
 
 
 def instances(tier, seed):
+    yield {"kind": "long"}
     yield {"universe": [(0, 1), (0, 2), (1, 2)]}
     # a pair and its reversal are different elements
     yield {"universe": [(0, 1), (1, 0), (0, 2)]}
@@ -92,8 +95,39 @@ def check_state(s, model, universe, res, hist):
     return None
 
 
+def run_long(inst, res):
+    """Supplementary, NOT exhaustive: one deterministic history over 300 elements (list positions >= 257), compared
+    with the model after every operation."""
+    from gcmpy.tools.draw_set import DrawSet
+    s, model = DrawSet(), set()
+    ops = [("add", (i, i + 1)) for i in range(300)]
+    ops += [("remove", (299, 300)), ("remove", (0, 1)), ("add", (299, 300)), ("remove", (298, 299)),
+            ("remove", (299, 300)), ("remove", (150, 151)), ("add", (0, 1))]
+    ops += [("remove", (i, i + 1)) for i in range(297, 255, -1)]
+    for k, (op, x) in enumerate(ops):
+        res.executions += 1
+        res.transitions += 1
+        try:
+            getattr(s, op)(x)
+            getattr(model, op)(x)
+        except Exception as e:
+            res.violation("C20:long-history", f"operation #{k} {op}{x} on a set of {len(model)} elements raised {e!r}",
+                          {"kind": "long"}, history=[list(o) for o in ops[:k + 1]])
+            return
+        if len(s) != len(model) or set(iter(s)) != model or len(list(iter(s))) != len(model) \
+                or (x in s) != (x in model):
+            res.violation("C20:long-history", f"after operation #{k} {op}{x}: {len(s)} elements, model has "
+                          f"{len(model)}", {"kind": "long"}, history=[list(o) for o in ops[:k + 1]])
+            return
+    res.states += 1
+    res.flags.add("long-history")
+
+
 def run_instance(inst, tier):
     res = Result()
+    if inst.get("kind") == "long":
+        run_long(inst, res)
+        return res
     universe = [tuple(x) for x in inst["universe"]]
     s0, m0 = build([])
     seen = {canon(s0): []}
@@ -190,6 +224,12 @@ def finalize(agg, tier):
 
 
 def replay(v):
+    if v["instance"].get("kind") == "long":
+        r = Result()
+        run_long({}, r)
+        for x in r.violations:
+            print(x["key"], x["message"])
+        return 1 if r.violations else 0
     hist = [(op, tuple(x)) for op, x in v["history"]]
     s, model = build(hist[:-1]) if hist else build([])
     print("history:", hist)
